@@ -594,12 +594,13 @@ pub fn check(ctx: &mut Ctx) {
 	ctx.run_sub(&Connections);
 	ctx.run_sub(&GiveUp);
 	ctx.run_sub(&LowLevelServerDrop);
+	ctx.run_sub(&LowLevelHttp);
 	ctx.run_sub(&OverTcp);
 	ctx.extra.insert("tcp_inconclusive_cases".into(), json!(TCP_INCONCLUSIVE.load(std::sync::atomic::Ordering::SeqCst)));
 }
 
 pub fn replay(file: &serde_json::Value) -> Option<i32> {
-	replay_with(&Connections, file, "C11").or_else(|| replay_with(&GiveUp, file, "C11")).or_else(|| replay_with(&LowLevelServerDrop, file, "C11")).or_else(|| replay_with(&OverTcp, file, "C11"))
+	replay_with(&Connections, file, "C11").or_else(|| replay_with(&GiveUp, file, "C11")).or_else(|| replay_with(&LowLevelServerDrop, file, "C11")).or_else(|| replay_with(&LowLevelHttp, file, "C11")).or_else(|| replay_with(&OverTcp, file, "C11"))
 }
 
 #[allow(dead_code)]
@@ -819,6 +820,143 @@ impl SubCheck for LowLevelServerDrop {
 				}
 			}
 			obs.nontrivial();
+			fix.ctx.gates.release_all();
+			settle().await;
+		});
+	}
+}
+
+// ---------------------------------------------------------------------------------------------
+// low-level `http::call_with_service_builder`: a request holds its slot until it is answered
+// ---------------------------------------------------------------------------------------------
+
+#[derive(Clone, Debug, Serialize, Deserialize)]
+pub enum LlStep {
+	/// a POST whose handler waits for its gate: stays in flight
+	Gated,
+	/// a POST answered at once
+	Quick,
+	/// release the k-th request in flight
+	Release(u8),
+	/// a WebSocket session through `ws::connect` (shares the guard)
+	WsOpen,
+	WsClose(u8),
+}
+
+#[derive(Clone, Debug, Serialize, Deserialize)]
+pub struct LlHttpCase {
+	pub limit: u8,
+	pub steps: Vec<LlStep>,
+}
+
+pub struct LowLevelHttp;
+
+impl SubCheck for LowLevelHttp {
+	type Case = LlHttpCase;
+	fn name(&self) -> &'static str {
+		"low-level-http"
+	}
+	fn cases(&self, tier: Tier) -> u32 {
+		tier.pick(3_000, 60_000)
+	}
+	fn strategy(&self, _tier: Tier) -> BoxedStrategy<LlHttpCase> {
+		let step = prop_oneof![
+			4 => Just(LlStep::Gated),
+			3 => Just(LlStep::Quick),
+			3 => any::<u8>().prop_map(LlStep::Release),
+			1 => Just(LlStep::WsOpen),
+			1 => any::<u8>().prop_map(LlStep::WsClose),
+		];
+		(1u8..4, proptest::collection::vec(step, 1..14)).prop_map(|(limit, steps)| LlHttpCase { limit, steps }).boxed()
+	}
+	fn run(&self, case: &LlHttpCase, obs: &mut Obs) {
+		let rt = rt();
+		rt.block_on(async {
+			let limit = case.limit.clamp(1, 3) as usize;
+			let fix = Fixture::new(Cfg { max_connections: limit as u32, ..Cfg::default() });
+			let desc = || format!("case={case:?}");
+			let mut flying: Vec<(String, tokio::task::JoinHandle<HttpResp>)> = vec![];
+			let mut sessions: Vec<WsPeer> = vec![];
+			let mut tokens = 0u32;
+			let mut at_limit = false;
+			for (n, st) in case.steps.iter().enumerate() {
+				let in_use = flying.len() + sessions.len();
+				match st {
+					LlStep::Gated | LlStep::Quick => {
+						tokens += 1;
+						let token = format!("ll{tokens}");
+						let body = if matches!(st, LlStep::Gated) { format!(r#"{{"jsonrpc":"2.0","id":{tokens},"method":"gated_async","params":["{token}"]}}"#) } else { format!(r#"{{"jsonrpc":"2.0","id":{tokens},"method":"echo_sync","params":[{tokens}]}}"#) };
+						let mut h = tokio::spawn(fix.http_lowlevel_detached(HttpReq::post_json(body.as_bytes())));
+						settle().await;
+						let done = if h.is_finished() { Some((&mut h).await) } else { None };
+						if in_use >= limit {
+							at_limit = true;
+							match done {
+								Some(Ok(r)) => {
+									obs.check(r.status == 429, "c11/attempt-beyond-limit-served", || format!("step #{n} {st:?} with {in_use} of {limit} slots in use was answered {} {}; {}", r.status, String::from_utf8_lossy(&r.body), desc()));
+								}
+								Some(Err(e)) => obs.fail("c11/background-panic", format!("{e}; {}", desc())),
+								None => {
+									obs.fail("c11/attempt-beyond-limit-served", format!("step #{n} {st:?} with {in_use} of {limit} slots in use was taken on (its handler is running); {}", desc()));
+									flying.push((token, h));
+								}
+							}
+						} else {
+							match (st, done) {
+								(LlStep::Gated, None) => flying.push((token, h)),
+								(LlStep::Quick, Some(Ok(r))) => {
+									obs.check(r.status == 200, "c11/attempt-within-limit-refused", || format!("step #{n} {st:?} with {in_use} of {limit} slots in use was answered {} {}; {}", r.status, String::from_utf8_lossy(&r.body), desc()));
+								}
+								(_, Some(Ok(r))) => obs.fail("c11/attempt-within-limit-refused", format!("step #{n} {st:?} with {in_use} of {limit} slots in use was answered {} {} at once; {}", r.status, String::from_utf8_lossy(&r.body), desc())),
+								(_, Some(Err(e))) => obs.fail("c11/background-panic", format!("{e}; {}", desc())),
+								(_, None) => obs.fail("c11/request-not-answered", format!("step #{n} {st:?}; {}", desc())),
+							}
+						}
+					}
+					LlStep::Release(k) => {
+						if flying.is_empty() {
+							continue;
+						}
+						let (token, h) = flying.remove(*k as usize % flying.len());
+						fix.ctx.gates.release(&token);
+						settle().await;
+						match h.now_or_never() {
+							Some(Ok(r)) => {
+								obs.check(r.status == 200, "c11/started-call-not-answered", || format!("step #{n}: released request answered {}; {}", r.status, desc()));
+							}
+							other => obs.fail("c11/started-call-not-answered", format!("step #{n}: released request: {:?}; {}", other.map(|r| r.map(|x| x.status)), desc())),
+						}
+					}
+					LlStep::WsOpen => {
+						let r = fix.ws_lowlevel().await;
+						settle().await;
+						match r {
+							Ok(p) if in_use < limit => sessions.push(p),
+							Ok(_) => obs.fail("c11/attempt-beyond-limit-served", format!("step #{n}: a session with {in_use} of {limit} slots in use; {}", desc())),
+							Err(e) if in_use < limit => obs.fail("c11/attempt-within-limit-refused", format!("step #{n}: session with {in_use} of {limit} in use: {e}; {}", desc())),
+							Err(_) => at_limit = true,
+						}
+					}
+					LlStep::WsClose(k) => {
+						if sessions.is_empty() {
+							continue;
+						}
+						let mut p = sessions.remove(*k as usize % sessions.len());
+						p.close().await;
+						settle().await;
+					}
+				}
+				let used = flying.len() + sessions.len();
+				let free = fix.lowlevel_guard.available_connections();
+				obs.check(free + used == limit, "c11/slot-count-wrong", || format!("after step #{n} {st:?}: {used} requests / sessions in flight, {free} of {limit} slots free; {}", desc()));
+				if !obs.failures.is_empty() {
+					break;
+				}
+			}
+			if at_limit {
+				obs.nontrivial();
+				obs.class("low-level-http:limit-reached");
+			}
 			fix.ctx.gates.release_all();
 			settle().await;
 		});
